@@ -85,14 +85,16 @@ type World struct {
 	ctx    context.Context
 	cancel context.CancelFunc
 
-	ops      []*Op
-	active   int
-	subs     []*Submission
-	sths     []*servedSTH
-	opSeq    int // global event sequence for real-time order
-	x        *extState
-	started  int
-	auditing bool
+	ops       []*Op
+	active    int
+	subs      []*Submission
+	sths      []*servedSTH
+	opSeq     int // global event sequence for real-time order
+	x         *extState
+	legacy    *replica // C14: a default-mode instance on the same backend (entries stored with their full chain)
+	rootsFile string
+	started   int
+	auditing  bool
 }
 
 // New returns a constructor for the kernel.
@@ -182,6 +184,7 @@ func (w *World) build() {
 	w.prefix = "/sim"
 	w.be = &Backend{S: s, Log: reflog.New(7001, epoch.UnixNano()), Name: "be"}
 	rootsFile := WriteRoots(s.TB.TempDir(), "roots.pem", w.pki.Roots)
+	w.rootsFile = rootsFile
 	priv, pub := LogKey(w.logKey)
 	for i := 0; i < p.Replicas; i++ {
 		cfg := &configpb.LogConfig{LogId: 7001, Prefix: "sim", RootsPemFile: []string{rootsFile}, PrivateKey: priv, PublicKey: pub}
@@ -205,6 +208,14 @@ func (w *World) build() {
 			panic("harness: cannot build instance: " + err.Error())
 		}
 		w.reps = append(w.reps, &replica{inst: inst, skew: p.Skews[i]})
+	}
+	if w.mode.External && w.mode.Prop == "C14" && t.Chance(1, 2) {
+		cfg := &configpb.LogConfig{LogId: 7001, Prefix: "sim", RootsPemFile: []string{rootsFile}, PrivateKey: priv, PublicKey: pub}
+		inst, err := NewInstance(InstanceParams{Cfg: cfg, Backend: w.be, Deadline: p.Deadline})
+		if err != nil {
+			panic("harness: cannot build legacy instance: " + err.Error())
+		}
+		w.legacy = &replica{inst: inst}
 	}
 	s.Logf("profile %+v pki roots=%d", *p, len(w.pki.Roots))
 }
@@ -259,6 +270,10 @@ func (w *World) genSubmit() *Op {
 	op.Path = sub.Path()
 	op.Body = sub.Body()
 	op.Sub = sub
+	if w.legacy != nil && t.Chance(1, 3) {
+		op.Legacy = true
+		w.s.Probe("c14.legacy-submit")
+	}
 	return op
 }
 
@@ -442,6 +457,9 @@ func (w *World) launch(op *Op) {
 	op.StartSeq = w.opSeq
 	op.StartT = w.s.Now()
 	rep := w.reps[op.Replica]
+	if op.Legacy {
+		rep = w.legacy
+	}
 	w.s.Go(func() { Serve(w.s, rep.inst, w.prefix, op, w.ctx) })
 }
 
@@ -539,6 +557,9 @@ func (w *World) Options(s *kernel.Sim) []kernel.Option {
 			cw = clockWeightsIdle
 		}
 		for i, d := range kernel.ClockLadder {
+			if w.prof.CacheKind == "lru-ttl" && d > 2*time.Minute {
+				continue // keeps the number of expiry-ticker wake-ups per step bounded
+			}
 			opts = append(opts, s.AdvanceOpt(d, cw[i]))
 		}
 	} else if len(opts) == 0 && w.active > 0 {
